@@ -28,16 +28,20 @@ ASSUMPTIONS = ['proxies are kept strongly referenced by the harness (the registr
                'user callbacks neither raise nor re-enter callRemote']
 
 GUID = b'0123456789abcdef0123456789abcdef'
-KINDS = {'unix': 'unix:path=/run/verif-%d', 'tcp': 'tcp:host=h%d,port=%d', 'nonce': 'nonce-tcp:host=n%d,port=%d,noncefile=/n'}
+KINDS = {'unix': 'unix:path=/run/verif-%d', 'tcp': 'tcp:host=h%d,port=%d', 'nonce': 'nonce-tcp:host=n%d,port=%d,noncefile=/n',
+         'unix-guid': 'unix:path=/run/verif-%d,guid=0123456789abcdef0123456789abcdef'}
+SKIPPED = ['launchd:env=DBUS_LAUNCHD_SESSION_BUS_SOCKET', 'autolaunch:', 'foo:bar=1']      # kinds the client cannot use
 
 
-def _address(entries):
+def _address(entries, decorate=False):
     out = []
     for i, k in enumerate(entries):
-        if k == 'unix':
+        if k in ('unix', 'unix-guid'):
             out.append(KINDS[k] % i)
         else:
             out.append(KINDS[k] % (i, 1000 + i))
+        if decorate and i % 2 == 0:
+            out.append(SKIPPED[i % len(SKIPPED)])      # unusable entries in between are skipped, not counted
     return ';'.join(out)
 
 
@@ -77,9 +81,11 @@ def run_connect(case):
         reach = case['reachable']
         results = []
         try:
-            d = C.connect(reactor, _address(entries))
+            d = C.connect(reactor, _address(entries, case.get('decorate', False)))
         except Exception as e:
             return [Disc(exc_key(e, 'connect.raises'), exc_detail(e))]
+        if not hasattr(d, 'addBoth'):
+            return [Disc('connect.returns-no-deferred', 'connect() returned %r' % (d,))]
         d.addBoth(results.append)
         attempts = []
         seen_unix = seen_tcp = 0
@@ -102,7 +108,7 @@ def run_connect(case):
             if idx >= len(entries):
                 break
             if reach[idx]:
-                kind = 'unix' if entries[idx] == 'unix' else 'tcp'
+                kind = 'unix' if entries[idx].startswith('unix') else 'tcp'
                 conn_proto = new[2].buildProtocol(None)
                 t = N.FakeUnixTransport() if kind == 'unix' else N.FakeTransport()
                 conn_proto.makeConnection(t)
@@ -111,7 +117,7 @@ def run_connect(case):
         # expected order of attempts: listed order up to and including the first reachable one
         first = reach.index(True) if True in reach else None
         want_n = len(entries) if first is None else first + 1
-        want = [('unix', '/run/verif-%d' % i) if entries[i] == 'unix' else ('tcp', ('h%d' if entries[i] == 'tcp' else 'n%d') % i)
+        want = [('unix', '/run/verif-%d' % i) if entries[i].startswith('unix') else ('tcp', ('h%d' if entries[i] == 'tcp' else 'n%d') % i)
                 for i in range(want_n)]
         if attempts != want:
             out.append(Disc('connect.endpoint-order', 'attempted %r, expected %r' % (attempts, want)))
@@ -213,7 +219,8 @@ def _total(kind):
 
 
 def enum_connect(tier):
-    lists = [['unix'], ['tcp'], ['nonce'], ['unix', 'tcp'], ['tcp', 'unix', 'nonce'], ['nonce', 'tcp', 'unix', 'tcp']]
+    lists = [['unix'], ['tcp'], ['nonce'], ['unix', 'tcp'], ['tcp', 'unix', 'nonce'], ['nonce', 'tcp', 'unix', 'tcp'],
+             ['unix-guid', 'tcp']]
     if tier == 'thorough':
         lists += [list(p) for p in itertools.product(['unix', 'tcp', 'nonce'], repeat=3)]
     seen = set()
@@ -222,15 +229,17 @@ def enum_connect(tier):
             reach = list(reach)
             if True not in reach:
                 yield {'entries': entries, 'reachable': reach, 'variant': 'ideal', 'crash': None}
+                yield {'entries': entries, 'reachable': reach, 'variant': 'ideal', 'crash': None, 'decorate': True}
                 continue
             first = reach.index(True)
-            kind = 'unix' if entries[first] == 'unix' else 'tcp'
+            kind = 'unix' if entries[first].startswith('unix') else 'tcp'
             total = _total(kind)
             for variant in ('rejected', 'hello-error', 'garbage'):
                 yield {'entries': entries, 'reachable': reach, 'variant': variant, 'crash': None}
             # crash points: only once per (kind, position of first reachable) -- the walk before it is independent
             key = (kind, tuple(entries[:first + 1]))
             yield {'entries': entries, 'reachable': reach, 'variant': 'ideal', 'crash': None, 'total': total}
+            yield {'entries': entries, 'reachable': reach, 'variant': 'ideal', 'crash': None, 'total': total, 'decorate': True}
             if key in seen:
                 continue
             seen.add(key)
